@@ -101,6 +101,9 @@ enum Policy {
 enum Alphabet {
     Full,
     Reduced,
+    /// representative operations at the front, in the middle and at the back
+    /// of larger vectors
+    Large,
 }
 
 #[derive(Clone, Debug)]
@@ -119,6 +122,9 @@ struct Cfg {
     max_len: u8,
     /// Largest limit/count announced by `SetLimit` tokens.
     max_limit: u8,
+    /// If non-empty: exactly these limits/counts are announced instead of
+    /// 0..=max_limit.
+    limit_values: Vec<u8>,
     /// Initial value of the limit Observable (Obs / ObsReset sources).
     obs_init: u8,
     /// Build the next stage directly on the adapter value (`adapter.filter(..)`)
@@ -240,6 +246,37 @@ fn ops_for(len: u8, cfg: &Cfg, out: &mut Vec<Tok>) {
                 out.push(Tok::Op(Op::Truncate(n)));
             }
         }
+        Alphabet::Large => {
+            let mid = len / 2;
+            if room >= 1 {
+                for k in 0..nk {
+                    out.push(Tok::Op(Op::PushBack(k)));
+                }
+                out.push(Tok::Op(Op::PushFront(nk - 1)));
+                out.push(Tok::Op(Op::Insert(mid, 0)));
+                if len >= 1 {
+                    out.push(Tok::Op(Op::Insert(len - 1, nk - 1)));
+                    out.push(Tok::Op(Op::Insert(1.min(len), 0)));
+                }
+            }
+            if room >= 3 {
+                out.push(Tok::Op(Op::Append(3, if nk > 1 { 1 + nk } else { 0 })));
+            }
+            out.push(Tok::Op(Op::PopFront));
+            out.push(Tok::Op(Op::PopBack));
+            if len > 0 {
+                out.push(Tok::Op(Op::Set(mid.min(len - 1), nk - 1)));
+                out.push(Tok::Op(Op::Set(len - 1, 0)));
+                out.push(Tok::Op(Op::Remove(mid.min(len - 1))));
+                out.push(Tok::Op(Op::Remove(0)));
+                out.push(Tok::Op(Op::Remove(len - 1)));
+            }
+            if len >= 3 {
+                out.push(Tok::Op(Op::Truncate(len - 2)));
+                out.push(Tok::Op(Op::Truncate(2)));
+            }
+            out.push(Tok::Op(Op::Clear));
+        }
         Alphabet::Reduced => {
             if room >= 1 {
                 for k in 0..nk {
@@ -300,8 +337,14 @@ impl<E: El> Harness for AdpH<E> {
         }
         for (k, s) in cfg.stages.iter().enumerate() {
             if s.is_dynamic() && m.lim_alive[k] {
-                for n in 0..=cfg.max_limit {
-                    out.push(Tok::SetLimit(k as u8, n));
+                if cfg.limit_values.is_empty() {
+                    for n in 0..=cfg.max_limit {
+                        out.push(Tok::SetLimit(k as u8, n));
+                    }
+                } else {
+                    for &n in &cfg.limit_values {
+                        out.push(Tok::SetLimit(k as u8, n));
+                    }
                 }
                 if cfg.drop_limit {
                     out.push(Tok::DropLimit(k as u8));
